@@ -108,6 +108,18 @@ def gen_c17(rnd, n, thorough=False):
         if c == 2:
             kind = 'sum'       # with a reader that waits more than a second for its file
         lines = []
+        if c == 6:
+            # four files of 9000 slots each, read concurrently; at some instants the values are 5, +Inf, -Inf, 1 and
+            # 1e16, 1, 1, 1: the sum is the fold in the order of the files, whatever the number of workers
+            lay = [(1, 9000)]
+            vals = [[5.0, float('inf'), float('-inf'), 1.0], [1e16, 1.0, 1.0, 1.0], [1.0, 1e16, -1e16, 1.0]]
+            for j in range(4):
+                nm = 's/i1/f%d.wsp' % j
+                pts = " ".join("@-%d %016x" % (10 + 100 * q, fbits(vals[q][j])) for q in range(3)) + " @-%d %016x" % (8000 + j, fbits(float(j)))
+                lines += ["create %s %s m 2 x 3f000000" % (nm, fmt_layout(lay)), "many %s 0 @ 4 %s" % (nm, pts), "sync %s" % nm, "drop %s" % nm]
+            lines.append("clisum base=s item=i1 src=*.wsp from=0 until=0 archive=-1 header=0")
+            cases.append({'id': 'c17-%d' % c, 'lines': lines, 'tags': {'kind': 'sum_grouping'}})
+            continue
         if kind == 'sum_many':
             # more files than any worker pool, read concurrently: all good, then every read failing
             # (an archive the files do not have), then a few unreadable files among them: the sum
